@@ -177,7 +177,8 @@ Definition gossip : M unit :=
 (* Foca::announce_to_down *)
 Definition announce_to_down (n : N) : M unit :=
   f <- get ;;
-  chosen <- with_ctr (choose_down_members rnd (mems f) n) ;;
+  chosen <- with_ctr (choose_down_members_if rnd (mems f) n
+                        (fun c => negb (addr_eqb (addr_of c) (addr_of (identity f))))) ;;
   forM_ (rev chosen) (fun m => send_message (m_id m) Announce).
 
 (* Foca::reset *)
